@@ -53,6 +53,7 @@ type fidReq struct {
 	Headers [][2]string `json:"headers"` // raw header lines, values base64 (arbitrary bytes)
 	Names64 bool        `json:"names64"`
 	Body    string      `json:"body_b64"`
+	Chunked bool        `json:"chunked"` // no Content-Length: Transfer-Encoding: chunked, the body in several chunks
 	Seq     string      `json:"seq"`
 }
 
@@ -185,7 +186,11 @@ func fidRawRequest(addr string, rq fidReq) (int, error) {
 		return 0, err
 	}
 	var buf bytes.Buffer
-	fmt.Fprintf(&buf, "POST %s HTTP/1.1\r\nHost: verif.test\r\nContent-Length: %d\r\nConnection: close\r\n", rq.Route, len(body))
+	if rq.Chunked {
+		fmt.Fprintf(&buf, "POST %s HTTP/1.1\r\nHost: verif.test\r\nTransfer-Encoding: chunked\r\nConnection: close\r\n", rq.Route)
+	} else {
+		fmt.Fprintf(&buf, "POST %s HTTP/1.1\r\nHost: verif.test\r\nContent-Length: %d\r\nConnection: close\r\n", rq.Route, len(body))
+	}
 	for _, h := range rq.Headers {
 		name := h[0]
 		if rq.Names64 {
@@ -202,7 +207,20 @@ func fidRawRequest(addr string, rq fidReq) (int, error) {
 		buf.WriteString("\r\n")
 	}
 	buf.WriteString("\r\n")
-	buf.Write(body)
+	if rq.Chunked {
+		for i := 0; i < len(body); i += 997 {
+			j := i + 997
+			if j > len(body) {
+				j = len(body)
+			}
+			fmt.Fprintf(&buf, "%x\r\n", j-i)
+			buf.Write(body[i:j])
+			buf.WriteString("\r\n")
+		}
+		buf.WriteString("0\r\n\r\n")
+	} else {
+		buf.Write(body)
+	}
 	if _, err := conn.Write(buf.Bytes()); err != nil {
 		// the server may have answered (413) and closed before everything was written
 		_ = err
